@@ -147,7 +147,7 @@ func selectFollowing(nodeSet NodeSet) Result {
 func appendFollowing(cursor store.Cursor, result []store.Cursor) []store.Cursor {
 	parent := cursor.Parent()
 
-	if parent.Pos() == 0 {
+	if cursor.Pos() == 0 {
 		return result
 	}
 
@@ -181,7 +181,7 @@ func selectFollowingSibling(nodeSet NodeSet) Result {
 func appendFollowingSibling(cursor store.Cursor, result []store.Cursor) []store.Cursor {
 	parent := cursor.Parent()
 
-	if parent.Pos() == 0 {
+	if cursor.Pos() == 0 {
 		return result
 	}
 
@@ -236,7 +236,7 @@ func selectPreceding(nodeSet NodeSet) Result {
 func appendPreceding(cursor store.Cursor, result []store.Cursor) []store.Cursor {
 	parent := cursor.Parent()
 
-	if parent.Pos() == 0 {
+	if cursor.Pos() == 0 {
 		return result
 	}
 
@@ -271,7 +271,7 @@ func selectPrecedingSibling(nodeSet NodeSet) Result {
 func appendPrecedingSibling(cursor store.Cursor, result []store.Cursor) []store.Cursor {
 	parent := cursor.Parent()
 
-	if parent.Pos() == 0 {
+	if cursor.Pos() == 0 {
 		return result
 	}
 
